@@ -1,11 +1,143 @@
 import StorageModel.Driver.Common
+import StorageModel.C06.Model
+import StorageModel.C06.NoTrace
 /- model driver for C06: `run spec` reads case lines on stdin and prints one output line per case
-   (spec = false: the engine model's output; spec = true: the spec's verdict). -/
+   (spec = false: the engine model's output; spec = true: the spec's verdict).
+   Line protocol: see /verif/harness/c06.go. -/
 namespace StorageModel.Driver.C06
-open StorageModel.Driver
+open StorageModel StorageModel.Driver StorageModel.C06
+open StorageModel.C03 (Map Id Err Line setOf)
 
-def step (_line : String) : String := "not-implemented"
-def specStep (_line : String) : String := "not-implemented"
+def hexB (b : Bytes) : String := Bytes.toWire b
+
+def listW (l : List Bytes) : String :=
+  if l.isEmpty then "." else "+".intercalate (l.map hexB)
+
+def parseList (s : String) : Option (List Bytes) :=
+  if s = "." then some [] else (s.splitOn "+").mapM Bytes.ofHex
+
+def parseOpt (s : String) : Option (Option Bytes) :=
+  if s = "~" then some none else (Bytes.ofHex s).map some
+
+def parseChkA (s : String) : Option ChkA :=
+  if s = "*" then none
+  else
+    let c := s.toList
+    some ⟨c.contains 'n', c.contains 'a', c.contains 'r', c.contains 'o', c.contains 'g'⟩
+
+def parseVals (n a r o g : String) : Option ValsA := do
+  pure ⟨← Bytes.ofHex n, ← parseOpt a, ← parseList r, ← parseOpt o, ← parseList g⟩
+
+def parseOp (s : String) : Option Op :=
+  match s.splitOn ":" with
+  | ["ca", id, n, a, r, o, g] => do pure (.createA (← Bytes.ofHex id) (← parseVals n a r o g))
+  | ["ua", id, n, a, r, o, g, c] => do pure (.updateA (← Bytes.ofHex id) (← parseVals n a r o g) (parseChkA c))
+  | ["cc", id, n, a, r, o, g, code] => do
+    pure (.createA1 (← Bytes.ofHex id) (← parseVals n a r o g) (← Bytes.ofHex code))
+  | ["da", id] => do pure (.deleteA (← Bytes.ofHex id))
+  | ["dc", id] => do pure (.deleteA (← Bytes.ofHex id))
+  | ["cb", id, l] => do pure (.createB (← Bytes.ofHex id) (← parseOpt l))
+  | ["ub", id, l, c] => do
+    pure (.updateB (← Bytes.ofHex id) (← parseOpt l) (if c = "*" then none else some (c.toList.contains 'l')))
+  | ["db", id] => do pure (.deleteB (← Bytes.ofHex id))
+  | _ => none
+
+def parseTxs (s : String) : Option (List (List Op)) :=
+  (s.splitOn "|").mapM fun t => (t.splitOn ",").mapM parseOp
+
+def errName : Err → String
+  | .dup => "dup" | .nullNotAllowed => "null" | .notFound => "notfound"
+  | .exists => "exists" | .refExists => "refexists" | .other => "other" | .panic => "panic"
+
+def pathW (p : List Bytes) : String := "/".intercalate (p.map hexB)
+
+def lineW : Line → String
+  | .bucket p => "B:" ++ pathW p
+  | .kv p k v => "K:" ++ pathW (p ++ [k]) ++ "=" ++ hexB v
+
+def sortStrings (l : List String) : List String := l.mergeSort (fun a b => decide (a ≤ b))
+
+def dumpW (ls : List Line) : String :=
+  if ls.isEmpty then "." else ",".intercalate (sortStrings (ls.map lineW))
+
+def optIdW : Option Bytes → String
+  | none => "~"
+  | some b => hexB b
+
+def readsW (vals : List Bytes) (s : State) : String :=
+  let per := vals.map fun v =>
+    "n:" ++ hexB v ++ "=" ++ optIdW (s.uName.lookup v) ++ ";a:" ++ hexB v ++ "=" ++ optIdW (s.uAlias.lookup v) ++
+    ";c:" ++ hexB v ++ "=" ++ optIdW (s.uCode.lookup v) ++ ";l:" ++ hexB v ++ "=" ++ optIdW (s.uLabel.lookup v) ++
+    ";r:" ++ hexB v ++ "=" ++ listW (setOf ((s.sRoles.lookup v).getD [])) ++ ";"
+  String.join per ++ "k=" ++ listW (setOf (Map.keys s.sRoles))
+
+def resW (s : State) (ops : List Op) : String :=
+  match applyOps s ops 0 with
+  | .ok _ => "ok"
+  | .error (i, e) => "err:" ++ errName e ++ "@" ++ toString i
+
+/-- ids deleted by the operations of a transaction, with the store they belong to -/
+def deletedIds : List Op → List (Bool × Id)
+  | [] => []
+  | .deleteA id :: rest => (true, id) :: deletedIds rest
+  | .deleteB id :: rest => (false, id) :: deletedIds rest
+  | _ :: rest => deletedIds rest
+
+/-- where the id occurs in the dump: path / key / value (in this order of precedence), or clean -/
+def scanW (id : Id) (ls : List Line) : String :=
+  let t := C03.typed id
+  let hit (x : Bytes) : Bool := x == id || x == t
+  let inPath : Line → Bool
+    | .bucket p => p.dropLast.any hit
+    | .kv p _ _ => p.any hit
+  let inKey : Line → Bool
+    | .bucket p => (p.getLast?.map hit).getD false
+    | .kv _ k _ => hit k
+  let inValue : Line → Bool
+    | .bucket _ => false
+    | .kv _ _ v => hit v
+  if ls.any inPath then "path" else if ls.any inKey then "key" else if ls.any inValue then "value" else "clean"
+
+def deletedW (spec : Bool) (s' : State) (ops : List Op) : String :=
+  let ids := (deletedIds ops).eraseDups.filter fun p =>
+    if p.1 then (s'.a.lookup p.2).isNone else (s'.b.lookup p.2).isNone
+  if ids.isEmpty then "."
+  else
+    let ls := Render s'
+    let parts := ids.map fun p =>
+      if spec then hexB p.2 ++ "=ok/clean"
+      else hexB p.2 ++ "=" ++ (if ls.any (fun l => decide (Mentions p.2 l)) then "found" else "ok") ++ "/" ++ scanW p.2 ls ++
+        -- the hypothesis of delete_no_trace is evaluated for every validated delete
+        (if noClashCheck p.2 s' then "" else "!noclash")
+    ",".intercalate (sortStrings parts)
+
+def runModel (spec : Bool) (vals : List Bytes) (txs : List (List Op)) : String :=
+  let rec go (s : State) (prev : String) (txs : List (List Op)) (acc : List String) : List String :=
+    match txs with
+    | [] => acc.reverse
+    | ops :: rest =>
+      let r := txStep s ops
+      let s' := r.1
+      let del := if r.2 == .ok then deletedW spec s' ops else "."
+      if spec then
+        -- the spec's verdict concerns committed deletes only: no trace of the id anywhere
+        go s' "" rest (("-#-#-#" ++ del) :: acc)
+      else
+        let dump := dumpW (Render s')
+        let shown := if dump == prev then "=" else dump
+        go s' dump rest ((resW s ops ++ "#" ++ shown ++ "#" ++ readsW vals s' ++ "#" ++ del) :: acc)
+  "|".intercalate (go State.empty "" txs [])
+
+def stepWith (spec : Bool) (line : String) : String :=
+  match splitSp line with
+  | ["h", vals, txs] =>
+    match parseList vals, parseTxs txs with
+    | some vs, some ts => runModel spec vs ts
+    | _, _ => "bad-case"
+  | _ => "bad-case"
+
+def step (line : String) : String := stepWith false line
+def specStep (line : String) : String := stepWith true line
 
 def run (spec : Bool) : IO Unit := forEachLine (if spec then specStep else step)
 
